@@ -570,10 +570,11 @@ fn step(w: &mut World, op: &Op, export_names: &mut BTreeSet<String>) -> Result<S
             if got != want {
                 note(format!("set_argument:{:?}-vs-{:?}", got, want), format!("set_instantiation_argument(n{inst}, {arg:?}, n{src}) -> {got:?}, model expects {want:?}"));
             }
+            let twin = got.is_ok() && w.m.args.iter().any(|(s, t, a)| *s == src && *t == inst && *a != arg);
             if got.is_ok() && !w.m.args.iter().any(|(s, t, a)| *s == src && *t == inst && *a == arg) {
                 w.m.args.push((src, inst, arg.clone()));
             }
-            (format!("set n{inst}[{arg:?}] = n{src} -> {}", match &got { Ok(()) => "Ok", Err(e) => e }), if got.is_ok() { "set:ok" } else { "set:err" })
+            (format!("set n{inst}[{arg:?}] = n{src} -> {}", match &got { Ok(()) => "Ok", Err(e) => e }), if twin { "set:ok:node-already-feeds-another-argument" } else if got.is_ok() { "set:ok" } else { "set:err" })
         }
         Op::Unset(inst, arg, src) => {
             let r = catch(|| w.g.unset_instantiation_argument(inst, &arg, src))?;
@@ -587,10 +588,11 @@ fn step(w: &mut World, op: &Op, export_names: &mut BTreeSet<String>) -> Result<S
             if got != want {
                 note(format!("unset_argument:{:?}-vs-{:?}", got, want), format!("unset_instantiation_argument(n{inst}, {arg:?}, n{src}) -> {got:?}, model expects {want:?}"));
             }
+            let twin = got.is_ok() && w.m.args.iter().any(|(s, t, a)| *s == src && *t == inst && *a == arg) && w.m.args.iter().any(|(s, t, a)| *s == src && *t == inst && *a != arg);
             if got.is_ok() {
                 w.m.args.retain(|(s, t, a)| !(*s == src && *t == inst && *a == arg));
             }
-            (format!("unset n{inst}[{arg:?}] = n{src} -> {}", match &got { Ok(()) => "Ok", Err(e) => e }), if got.is_ok() { "unset:ok" } else { "unset:err" })
+            (format!("unset n{inst}[{arg:?}] = n{src} -> {}", match &got { Ok(()) => "Ok", Err(e) => e }), if twin { "unset:ok:node-still-feeds-another-argument" } else if got.is_ok() { "unset:ok" } else { "unset:err" })
         }
         Op::Export(node, name) => {
             let taken = w.m.nodes.values().any(|n| n.exports.contains(&name));
@@ -731,6 +733,7 @@ fn lib_opts(rng: &mut Rng) -> LibOpts {
     o.iface.max_types = 2;
     o.iface.max_funcs = 2;
     o.inline_ifaces = true;
+    o.twin_funcs = true;
     o
 }
 
